@@ -316,7 +316,11 @@ pub fn a5_normalise(b: &mut syn::Block, cx: &mut Ctx) -> bool {
                         let pat: syn::Pat = match &cl.inputs[0] { syn::Pat::Wild(_) => parse_quote!(_hx_ignored), p => p.clone() };
                         st.push(parse_quote!(let #pat = #v;));
                         let body = &cl.body;
-                        if m.method == "then" { if !matches!(&**body, Expr::Call(_) | Expr::MethodCall(_)) { return None; } Some((st, parse_quote!(#body.await))) } else { Some((st, (**body).clone())) }
+                        if m.method == "then" {
+                            // `.then(|p| async move { .. })`: the block is what runs next; `.then(|p| g(p))`: g's future
+                            if let Expr::Async(a) = &**body { let blk = &a.block; return Some((st, parse_quote!(#blk))); }
+                            if !matches!(&**body, Expr::Call(_) | Expr::MethodCall(_)) { return None; } Some((st, parse_quote!(#body.await)))
+                        } else { Some((st, (**body).clone())) }
                     }
                     _ => None,
                 }
@@ -477,6 +481,9 @@ impl<'c> Rw<'c> {
                         if has_control_escape(&cl.body) { self.cx.err(format!("outside dialect: `return`/`?` inside an adapter closure in {}", self.fn_name)); return; }
                         match closure_single_pat(cl) { Some(p) => { let body = &cl.body; Some(parse_quote!(match #recv { Some(#p) => #body, None => #d })) } None => None }
                     }
+                    // a function path applied to the bound value: `ToOwned::to_owned` / `Clone::clone` is a clone of it
+                    Expr::Path(fp) => { let last = fp.path.segments.last().map(|s| s.ident.to_string()).unwrap_or_default();
+                        if last == "to_owned" || last == "clone" { Some(parse_quote!(match #recv { Some(#v) => #v.clone(), None => #d })) } else { Some(parse_quote!(match #recv { Some(#v) => #fp(#v), None => #d })) } }
                     _ => None,
                 }
             }
